@@ -63,7 +63,7 @@ Proof.
     destruct (rr_decode_name p (endq + 10) buffer) as [[cn ?]|x| |]; cbn [fst]; try contradiction; try apply safe_Err.
     destruct (ins_name _ _). apply safe_Ok. }
   destruct (_ =? 12).
-  { destruct (parse_ip _); try apply safe_Ok; try apply safe_Err.
+  { destruct (parse_ptr_owner name) as [[|a [|b [|c [|d [|x xs]]]]]|]; try apply safe_Ok.
     pose proof (rr_decode_name_safe p (endq + 10) buffer Hwf) as [Hp' Hf'].
     destruct (rr_decode_name p (endq + 10) buffer) as [[cn ?]|x| |]; cbn [fst]; try contradiction; try apply safe_Err.
     destruct (ins_ip _ _ _). apply safe_Ok. }
